@@ -21,7 +21,7 @@ G(tag, name, cond) ==
 VARIABLES started,   \* Start called and not yet stopped
           cmds,      \* all commands issued so far, in order: [a, kind, arg, st, pid, fut, name]
           subsS,     \* the service's subscription table: set of [f, q]
-          phase,     \* supervisor: "idle" | "dialing" | "connecting" | "connacked" | "online" | "resub" | "dispatch" | "offline"
+          phase,     \* supervisor: "idle" | "dialing" | "connecting" | "connacked" | "online" | "resub" | "dispatch" | "failing" | "offline"
           resubId,   \* packet id of the resubscription in flight
           cfg,       \* [clean, validate, resub]
           calls,     \* API calls in progress: set of [a, m, arg]
@@ -127,26 +127,26 @@ CSend(pkt, joined) ==   \* joined(p): the packet's subscriptions / topics with l
                  /\ G("C17", "ResubscribeExact", joined = subsS)
                  /\ phase' = "resub" /\ resubId' = pkt.id /\ UNCHANGED subsS
                  /\ Dispatch(0, pkt.id, "", "")          \* (its packet id may displace an older future as well)
-            ELSE /\ G("C17", "ResubscribeBeforeCommands", phase \in {"dispatch", "online"} /\ (phase = "online" => (~cfg.resub \/ subsS = {})))
+            ELSE /\ G("C17", "ResubscribeBeforeCommands", phase \in {"dispatch", "online", "failing"} /\ (phase = "online" => (~cfg.resub \/ subsS = {})))
                  /\ G("C15,C17", "CommandsFIFO", Queued # {} /\ cmds[HeadQ].kind = "subscribe" /\ ArgSubs(cmds[HeadQ].arg) = joined)
                  /\ Dispatch(HeadQ, pkt.id, "sent", cmds[HeadQ].fut)
                  /\ subsS' = Replace(subsS, joined)
-                 /\ phase' = "dispatch" /\ UNCHANGED resubId
+                 /\ phase' = (IF phase = "failing" THEN "failing" ELSE "dispatch") /\ UNCHANGED resubId
        [] pkt.t = "UNSUBSCRIBE" ->
-            /\ G("C17", "ResubscribeBeforeCommands", phase \in {"dispatch", "online"} /\ (phase = "online" => (~cfg.resub \/ subsS = {})))
+            /\ G("C17", "ResubscribeBeforeCommands", phase \in {"dispatch", "online", "failing"} /\ (phase = "online" => (~cfg.resub \/ subsS = {})))
             /\ G("C15,C17", "CommandsFIFO", Queued # {} /\ cmds[HeadQ].kind = "unsubscribe" /\ SeqSet(cmds[HeadQ].arg) = joined)
             /\ Dispatch(HeadQ, pkt.id, "sent", cmds[HeadQ].fut)
             /\ subsS' = {x \in subsS : x.f \notin joined}
-            /\ phase' = "dispatch" /\ UNCHANGED resubId
+            /\ phase' = (IF phase = "failing" THEN "failing" ELSE "dispatch") /\ UNCHANGED resubId
        [] pkt.t = "PUBLISH" /\ pkt.dup ->      \* retransmission by the client after a resume
             /\ G("C17", "ResendOnlyWhatIsInFlight", \E i \in 1..Len(cmds) : cmds[i].kind = "publish" /\ cmds[i].st # "queued" /\ SameMsg(cmds[i].arg, pkt.msg))
             /\ UNCHANGED <<cmds, subsS, phase, resubId>>
        [] pkt.t = "PUBLISH" /\ ~pkt.dup ->
-            /\ G("C17", "ResubscribeBeforeCommands", phase \in {"dispatch", "online"} /\ (phase = "online" => (~cfg.resub \/ subsS = {})))
+            /\ G("C17", "ResubscribeBeforeCommands", phase \in {"dispatch", "online", "failing"} /\ (phase = "online" => (~cfg.resub \/ subsS = {})))
             /\ G("C15,C17", "CommandsFIFO", Queued # {} /\ cmds[HeadQ].kind = "publish" /\ SameMsg(cmds[HeadQ].arg, pkt.msg))
             \* a reused packet id (clean session: the counter restarts) displaces the older pending future, which is cancelled
             /\ Dispatch(HeadQ, pkt.id, IF pkt.msg.q = 0 THEN "done" ELSE "sent", IF pkt.msg.q = 0 THEN "completed" ELSE cmds[HeadQ].fut)
-            /\ phase' = "dispatch" /\ UNCHANGED <<subsS, resubId>>
+            /\ phase' = (IF phase = "failing" THEN "failing" ELSE "dispatch") /\ UNCHANGED <<subsS, resubId>>
        [] OTHER -> UNCHANGED <<cmds, subsS, phase, resubId>>      \* PUBREL, acknowledgements, DISCONNECT
   /\ UNCHANGED <<started, cfg, calls, obs, acked>>
 
@@ -154,13 +154,15 @@ CSend(pkt, joined) ==   \* joined(p): the packet's subscriptions / topics with l
 CRecv(pkt) ==
   /\ CASE pkt.t = "CONNACK" -> phase' = (IF pkt.rc = 0 THEN "connacked" ELSE "offline") /\ UNCHANGED <<cmds, resubId>>
        [] pkt.t = "SUBACK" /\ phase = "resub" /\ pkt.id = resubId ->
-            phase' = (IF cfg.validate /\ 128 \in SeqSet(pkt.codes) THEN "offline" ELSE "dispatch") /\ resubId' = 0 /\ UNCHANGED cmds
+            phase' = (IF cfg.validate /\ 128 \in SeqSet(pkt.codes) THEN "failing" ELSE "dispatch") /\ resubId' = 0 /\ UNCHANGED cmds
        [] pkt.t \in {"SUBACK", "UNSUBACK", "PUBACK", "PUBCOMP"} ->
             LET want == CASE pkt.t = "SUBACK" -> "subscribe" [] pkt.t = "UNSUBACK" -> "unsubscribe" [] OTHER -> "publish"
                 hit == {i \in 1..Len(cmds) : cmds[i].st = "sent" /\ cmds[i].pid = pkt.id /\ cmds[i].kind = want}
                 failed == pkt.t = "SUBACK" /\ cfg.validate /\ 128 \in SeqSet(pkt.codes) IN
             /\ cmds' = [i \in 1..Len(cmds) |-> IF i \in hit THEN [cmds[i] EXCEPT !.st = "done", !.fut = IF @ = "pending" THEN (IF failed THEN "cancelled" ELSE "completed") ELSE @] ELSE cmds[i]]
-            /\ phase' = IF failed /\ hit # {} THEN "offline" ELSE phase
+            \* a rejected subscription makes the client give up the connection; until it has done so ("failing") the dispatcher may
+            \* still hand it commands
+            /\ phase' = IF failed /\ hit # {} THEN "failing" ELSE phase
             /\ UNCHANGED resubId
        [] OTHER -> UNCHANGED <<cmds, phase, resubId>>
   /\ acked' = (acked \/ (pkt.t = "CONNACK" /\ pkt.rc = 0))
